@@ -102,7 +102,9 @@ func irregularHoleShapes() []shape {
 			for j := 1; j <= n && n+j <= d; j++ {
 				add(d, n-j)
 			}
-			add(d, n-1, n-2)
+			if n+2 <= d {
+				add(d, n-1, n-2)
+			}
 		}
 	}
 	return r
